@@ -16,12 +16,15 @@
 
 static int tok;
 static int has_map_base;        /* a Table / Tree somewhere below: get() takes keys there, not positions */
-static var P0, P1, P2, P3, P4, F0, F1, F2;           /* predicate / map Function objects */
+static var P0, P1, P2, P3, P4, P5, F0, F1, F2;           /* predicate / map Function objects */
 static var pred_even(var x) { return c_int(x) % 2 == 0 ? x : NULL; }
 static var pred_odd(var x) { return c_int(x) % 2 != 0 ? x : NULL; }
 static var pred_gt3(var x) { return c_int(x) > 3 ? x : NULL; }
 static var pred_none(var x) { return NULL; }
 static var pred_all(var x) { return x; }
+/* accepts odd numbers by returning a marker object that is NOT the element: a Filter asks "NULL or not", nothing more */
+static struct Int* accept_marker;
+static var pred_odd_marker(var x) { return c_int(x) % 2 != 0 ? (var)accept_marker : NULL; }
 static struct Int* mapcell;
 /* a fresh object per call: two Maps inside one Zip must not hand out the same pointer (a Tuple holding one object
    twice cannot be iterated: open finding F-C04-tuple-dup) */
@@ -125,7 +128,7 @@ static var build(void) {
     ev_s(k == 'F' ? "[\"filter\"," : "[\"map\","); ev_i(p); ev_s(",");
     volatile var sub = build();
     ev_s("]");
-    var fn = k == 'F' ? (p == 0 ? P0 : p == 1 ? P1 : p == 2 ? P2 : p == 3 ? P3 : P4) : (p == 0 ? F0 : p == 1 ? F1 : F2);
+    var fn = k == 'F' ? (p == 0 ? P0 : p == 1 ? P1 : p == 2 ? P2 : p == 3 ? P3 : p == 5 ? P5 : P4) : (p == 0 ? F0 : p == 1 ? F1 : F2);
     return k == 'F' ? (var)new(Filter, sub, fn) : (var)new(Map, sub, fn);
   }
   fprintf(stderr, "bad expr token %s\n", hc_w[tok]); exit(9);
@@ -143,7 +146,7 @@ int main(int argc, char** argv) {
   FILE* f = fopen(argv[1], "r"); if (!f) { perror(argv[1]); return 9; }
   if (argc > 2) { ev_fd = open(argv[2], O_WRONLY | O_CREAT | O_TRUNC, 0644); if (ev_fd < 0) { perror(argv[2]); return 9; } }
   hc_install(0);
-  P0 = mkfn(pred_even); P1 = mkfn(pred_odd); P2 = mkfn(pred_gt3); P3 = mkfn(pred_none); P4 = mkfn(pred_all);
+  P0 = mkfn(pred_even); P1 = mkfn(pred_odd); P2 = mkfn(pred_gt3); P3 = mkfn(pred_none); P4 = mkfn(pred_all); P5 = mkfn(pred_odd_marker); accept_marker = new_root(Int, $I(-424242));
   F0 = mkfn(map_add); F1 = mkfn(map_dbl); F2 = mkfn(map_neg);
   mapcell = new_root(Int, $I(0));
   while (hc_next(f)) {
